@@ -60,6 +60,9 @@ type link struct {
 	stallUntil time.Duration
 	// tap sees every delivered packet just before it is handed over.
 	tap func(b []byte)
+	// sendLag: the send callback returns only this long after the packet is
+	// on its way (a transport whose write call completes late).
+	sendLag time.Duration
 
 	nSent, nDrop, nDup, nDeliv, nDelay int
 }
@@ -122,6 +125,14 @@ func (l *link) send(ctx context.Context, b []byte) error {
 	case <-ctx.Done():
 		return ctx.Err()
 	default:
+	}
+	if lag := l.lagOf(); lag > 0 {
+		defer func() {
+			select {
+			case <-time.After(lag):
+			case <-ctx.Done():
+			}
+		}()
 	}
 	l.mu.Lock()
 	defer l.mu.Unlock()
@@ -233,6 +244,12 @@ func (l *link) recv(ctx context.Context) ([]byte, error) {
 			return nil, ctx.Err()
 		}
 	}
+}
+
+func (l *link) lagOf() time.Duration {
+	l.mu.Lock()
+	defer l.mu.Unlock()
+	return l.sendLag
 }
 
 func (l *link) pending() int {
